@@ -111,7 +111,12 @@ Val(a, n) == [q |-> <<Ent(a[1], a[2], 1)>>, v |-> n]
 Recipes == { [a |-> a, b |-> <<"", "">>, op |-> ""] : a \in Atoms }
            \cup { [a |-> a, b |-> b, op |-> o] : a \in Atoms, b \in Atoms, o \in SeedOps \cap {"Mul", "Div"} }
            \cup { [a |-> a, b |-> a, op |-> "Mul"] : a \in (IF "Pow" \in SeedOps THEN Atoms ELSE {}) }
+           \* "Raw": a derived quantity built directly from an ordered map (Quantity.CreateDerived) that holds ONE quantity type under two
+           \* categories in two different units (3 m.cm) - products never produce such operands, their units are already matched
+           \cup { [a |-> p[1], b |-> p[2], op |-> "Raw"] :
+                    p \in { x \in (IF "Raw" \in SeedOps THEN Atoms \X Atoms ELSE {}) : x[1][1] # x[2][1] /\ x[1][2] # x[2][2] /\ CatQT(x[1][1]) = CatQT(x[2][1]) } }
 SeedVal(r, k) == IF r.op = "" THEN Val(r.a, InitVals[2 * k - 1])
+                 ELSE IF r.op = "Raw" THEN [q |-> <<Ent(r.a[1], r.a[2], 1), Ent(r.b[1], r.b[2], 1)>>, v |-> InitVals[2 * k - 1]]
                  ELSE MulDiv(Val(r.a, InitVals[2 * k - 1]), Val(r.b, InitVals[2 * k]), r.op).val
 Init == /\ TLCSet(2, 1 + (EmitOffset % 65520))
         /\ \E rs \in [1..NSlots -> Recipes] : seeds = rs /\ pool = [k \in 1..NSlots |-> SeedVal(rs[k], k)]
